@@ -11,6 +11,11 @@ CHECKS = {
     text="Every labelled block tree with <=3 blocks (quick) / <=4 (thorough) under every single-invalid-block labelling (3 invalidity kinds), and every all-valid tree with <=4 / <=5 blocks, is delivered in every arrival permutation (with 3 duplicate patterns) to a fresh real node through the out-of-order path; after every delivery the tip, total difficulty, verified flags, submitter verdicts and orphan pool are compared with a reference fork choice over the delivered set. Exhaustive within the bound; equal-difficulty world so every fork is a tie race.",
     note="Trusted: ground-truth validity by construction (audited by a forge node), Dummy PoW, OS thread scheduling not controlled in this family (gate-level interleavings are a separate family).",
     design="DESIGN.md §5 C01"),
+ "C02": dict(engine="node", category="model_checking",
+    technique="explicit-state exploration of reorg histories on the real node with a byte-level reference replay (RefChain) of every reached state, store and published snapshot, plus differential against a main-chain-only node",
+    text="Two-branch block universes over a 5-transaction universe (in-block chains, the same tx re-committed across the fork, conflicting spends of a cell created on both branches, uncles, forks straddling the epoch boundary) are generated exhaustively within the bound; every topological interleaving of the branches (with a truncation at every position for the designed universes) is executed on a fresh real node; after every step all canonical columns of the store and of the published snapshot are compared byte-for-byte with an independent from-genesis replay, and the final state with a node that only saw the final main chain.",
+    note="Trusted: flat-difficulty world, always-success scripts, RefChain (plain maps + molecule encoders + external MMR library), RocksDB; received_at masked; cycles compared differentially.",
+    design="DESIGN.md §5 C02"),
  "C09": dict(engine="crash", category="fault_enumeration",
     technique="explicit-state BFS over freezer operation histories on the real code + exhaustive crash-image (torn data/index file) enumeration per reached state",
     text="Every history of <=4 (quick) / <=6 (thorough) Append/Truncate/Sync/Reopen operations on the real FreezerFiles with a 40-byte file limit, and every Freezer-level freeze/truncate/reopen history on real packed blocks, is executed; for every reached state every crash image (head data file x INDEX cut to every byte length between last-synced and final size, new head absent/empty) is recovered by the real repair code and compared with a reference item list. Exhaustive within the bound; the bound covers every branch of the repair loop including the walk back across a file boundary.",
